@@ -48,6 +48,15 @@ CLAIMS['C15'] = dict(level='other', technique='static lock-order analysis: guard
     note='Sound for "no wait cycle" up to the provenance abstraction, which only ever adds edges; trait-object calls (dyn Debug) are not followed; three edges on objects not yet shared are reviewed exceptions (tables/c15_reviewed.json) with a checked premise. Does not decide starvation under the 10 ms timeouts.',
     ref='§4 C15')
 
+CLAIMS['C02'] = dict(level='other', technique='closed-world ledger over the call-graph closure of the loader entry points: every MIR Assert terminator and every call of a panicking library entry point is enumerated and discharged by an automatic rule (dominating compare, usize+const, table index proven by C18) or a reviewed guard with machine-checked guard facts; loop-progress and recursion analysis; who-writes rule for error line numbers; sibling agreement of header probe and loader',
+    text='Decides that the set of panic-capable operations reachable from load_buffer/load_file/check_buffer/check_file is closed and fully discharged (three confirmed panics were repaired by fix: commits), that every loop in the closure makes progress, whether recursion depth is input controlled (it is: known finding, stack exhaustion confirmed), that errors carry the live line counter, and that the header probe performs a prefix of the loader on the whole buffer. Does not prove the reviewed guards for all byte strings.',
+    note='Reviewed entries (tables/panic_ledger.json) are trusted value arguments; each lists guard facts (a comparison on a named variable, a call) that must still be present. A new panic-capable operation in the closure is reported until reviewed (closed world).',
+    ref='§4 C02')
+CLAIMS['C12'] = dict(level='other', technique='single-thread reading of the static lock graph (self-deadlock: same object or aliasable arguments without == guard; spurious errors: try/timed acquisition of a possibly held object), closed panic ledger / loop progress / recursion over all public entry points, exhaustive data rule over the specification tables',
+    text='Decides (a) no blocking acquisition of a lock the same call chain may hold exclusively, (b) no error-producing try/timed acquisition of such a lock, (c) the closed, discharged ledger of panic-capable sites reachable from all public items of both crates, (d) loop progress, (e) recursion bounded by the specification. Confirmed defects found: self-argument hangs, insert-range unwrap, spec lookups with invalid positions (repaired); move-to-ancestor always fails with ParentElementLocked, tree-depth recursion, one unreachable! in the spec API (known findings).',
+    note='Same trust base as C02 for reviewed guards; lock part shares the provenance abstraction of C15.',
+    ref='§4 C12')
+
 NA = {
     'C16': 'serialisability quantifies over interleavings and compares with sequential runs; the only static route (two-phase/reduction analysis) rejects essentially every public operation of the present design, so it cannot separate code that holds the property from code that does not',
     'C20': 'statement about numeric results (exactness, correct rounding, overflow per width) computed by std parsers for all texts; no static argument in reach bounds these run-time quantities',
